@@ -5,6 +5,7 @@ from . import common
 KEYS = ["res", "md", "outs"]
 RULE = ("bounded-exhaustive histories (depth 3 quick / 4 thorough) of {DDR write, DR write, input} x 8 covering values with a DR read "
         "after every event, rotated over the 11 ports; random histories of length 4-14 on one or two ports; "
+        "histories in which the state count moves between the events, across 2^31 / 2^32 / 2^33 (stamps must not decrease); "
         "distinct = distinct (history, results, announcements)")
 VALS = [0x00, 0xff, 0x0f, 0xf0, 0x55, 0xaa, 0x01, 0x80]
 
@@ -43,6 +44,19 @@ def generate(tier, seed, info):
                 ops.append(ev(k, p, rnd.choice(VALS + [rnd.randrange(256)])))
                 if rnd.random() < 0.5:
                     ops.append("r8:%x" % (0xffffd0 + p - 1))
+        n += 1
+        lines.append("id=%x kind=port ops=%s" % (n, ",".join(ops)))
+    # the time base of the stamps moves between the events (op ss: the state count so far), also across 2^31, 2^32 and 2^33:
+    # the stamps of the announcements must not decrease
+    for _ in range(3000 if tier == "quick" else 40000):
+        p = rnd.randrange(1, 12)
+        t = rnd.choice([0, 1000, 0x7ffffff0, 0xfffffff0, 0xffffff00, 0x1fffffff0, rnd.randrange(1 << 34)])
+        ops = ["ss:%x" % t]
+        for _ in range(rnd.randrange(3, 10)):
+            ops.append(ev(rnd.randrange(3), p, rnd.choice(VALS + [rnd.randrange(256)])))
+            if rnd.random() < 0.7:
+                t += rnd.choice([1, 6, 0x10, 0x20, 0x1000, rnd.randrange(1, 1 << 20)])
+                ops.append("ss:%x" % t)
         n += 1
         lines.append("id=%x kind=port ops=%s" % (n, ",".join(ops)))
     info["cases"] = len(lines); info["exhaustive"] = True
